@@ -209,10 +209,12 @@ func (e *Engine) sockRead(st *State, recv Value, buf SliceV, udpFrom bool) []exi
 		dcap := data.Cap
 		n := c.Ite(c.BVUlt(data.Len, e.bv64(int64(blen))), data.Len, e.bv64(int64(blen)))
 		src := e.getPath(yes, e.obj(yes, data.Obj), data.Path).(ArrayV)
+		// the first n bytes of the buffer are the datagram; the bytes behind them (which the returned count
+		// hides) are left arbitrary: they receive the script buffer's unconstrained bytes instead of keeping
+		// their old content - an over-approximation that keeps every byte a plain variable
 		for j := 0; j < blen && j < dcap; j++ {
 			p := PtrV{Obj: buf.Obj, Path: appendPath(buf.Path, PathElem{I: buf.Off + j})}
-			old := e.load(yes, p).(*Term)
-			e.store(yes, p, c.Ite(c.BVUlt(e.bv64(int64(j)), n), src.E[data.Off+j].(*Term), old))
+			e.store(yes, p, src.E[data.Off+j].(*Term))
 		}
 		if udpFrom {
 			// the sender's address: some IPv4 address and port
@@ -436,6 +438,8 @@ func (e *Engine) netIntrinsic(st *State, name string, args []Value) ([]exit, boo
 	case "verifNetFaults":
 		st.netw().faults = args[0].(*Term).IsTrue()
 		return retExit(st, nil), true
+	case "verifNetPlayTo":
+		return retExit(st, nil), true
 	case "verifNetConnectMax":
 		st.netw().connectMax = int64(concreteInt(args[0], name))
 		return retExit(st, nil), true
@@ -516,4 +520,39 @@ func (e *Engine) netIntrinsic(st *State, name string, args []Value) ([]exit, boo
 		return retExit(st, e.bv64(int64(n))), true
 	}
 	return nil, false
+}
+
+// netEqual: the two states have the same network script position and the same recorded writes.
+func netEqual(a, b *netState) bool {
+	if a == b {
+		return true
+	}
+	if a == nil || b == nil {
+		return false
+	}
+	if a.pos != b.pos || a.faults != b.faults || a.connectMax != b.connectMax || len(a.writes) != len(b.writes) || (a.script == nil) != (b.script == nil) {
+		return false
+	}
+	if a.script != nil && a.script != b.script {
+		if len(a.script.Data) != len(b.script.Data) {
+			return false
+		}
+		for i := range a.script.Data {
+			if !valEqual(a.script.Data[i], b.script.Data[i]) || a.script.Arrival[i] != b.script.Arrival[i] {
+				return false
+			}
+		}
+	}
+	for i := range a.writes {
+		x, y := a.writes[i], b.writes[i]
+		if x.Sock != y.Sock || len(x.Data) != len(y.Data) || !valEqual(x.To, y.To) {
+			return false
+		}
+		for j := range x.Data {
+			if x.Data[j] != y.Data[j] {
+				return false
+			}
+		}
+	}
+	return true
 }
